@@ -89,16 +89,19 @@ def restrict(rows, ids):
     return [r for r in rows if r[0] not in ids]
 
 
-def judge_snapshot(snap, A, B, inflight_kind, post_walsync, touched_extra=frozenset(), unit_open=False):
+def judge_snapshot(snap, A, B, inflight_kind, post_walsync, touched_extra=frozenset(), unit_open=False, obs_list=None, expected_fn=None, view_class=None, count_views=("count",)):
     """-> list of problems: dict(prop, what, view, detail). touched_extra: ids of rows the open transaction has
     touched so far (its uncommitted changes are C02's business, not C01's); unit_open: a unit is in flight or a
     transaction is open (COUNT(*) cannot be attributed to acknowledged rows then)"""
     if snap["open"] != "ok":
         return [{"prop": "C02", "what": "reopen_failed" if snap["open"].startswith("err") else "reopen_panicked", "view": "open", "detail": snap["open"][:200]}]
-    eA, eB = expected(A), expected(B)
+    obs_list = obs_list or R.OBS
+    expected_fn = expected_fn or expected
+    view_class = view_class or VIEW_CLASS
+    eA, eB = expected_fn(A), expected_fn(B)
     touched = {r[0] for r in (set(map(tuple, A)) ^ set(map(tuple, B)))} | set(touched_extra)
     obs = {}
-    for j, (name, _) in enumerate(R.OBS):
+    for j, (name, _) in enumerate(obs_list):
         r = snap["res"][j] if j < len(snap["res"]) else None
         if r is None:
             obs[name] = "missing"
@@ -120,7 +123,7 @@ def judge_snapshot(snap, A, B, inflight_kind, post_walsync, touched_extra=frozen
         if mA[v] or mB[v]:
             continue
         # the view matches neither candidate state
-        if v == "count":
+        if v in count_views:
             lost = A == B and not unit_open
         else:
             lost = restrict(obs[v], touched) != restrict(eA[v], touched) if isinstance(obs[v], list) else True
@@ -131,12 +134,12 @@ def judge_snapshot(snap, A, B, inflight_kind, post_walsync, touched_extra=frozen
         # every view equals A or B, but not all the same one: indexes / counters disagree with the table
         sa = sorted(v for v in obs if mA[v] and not mB[v])
         sb = sorted(v for v in obs if mB[v] and not mA[v])
-        problems.append({"prop": "C02", "what": "views_disagree", "view": "+".join(sorted({VIEW_CLASS[x] for x in sa})) + "=before|" + "+".join(sorted({VIEW_CLASS[x] for x in sb})) + "=after",
+        problems.append({"prop": "C02", "what": "views_disagree", "view": "+".join(sorted({view_class[x] for x in sa})) + "=before|" + "+".join(sorted({view_class[x] for x in sb})) + "=after",
                          "detail": {"show_acked_only": sa, "show_inflight_applied": sb}})
     return problems
 
 
-def judge_case(hist, out):
+def judge_case(hist, out, obs_list=None, expected_fn=None, view_class=None, dml=("insert", "update", "delete", "truncate"), count_views=("count",)):
     """-> (verdicts, stats). verdict: dict(model, n, event, op_kind, phase, prop, what, view, detail)"""
     stats = {"snapshots": 0, "consistent": 0, "abandoned_after_divergence": 0}
     if "fatal" in out:
@@ -146,7 +149,7 @@ def judge_case(hist, out):
     diverged_at = None
     for i, st in enumerate(hist):
         r = out["work_res"][i] if i < len(out["work_res"]) else None
-        if r is None or "panic" in r or (("ok" in r) != st["ok"]) or ("ok" in r and st["op"]["k"] in ("insert", "update", "delete", "truncate") and r["ok"].get("n") != st["n"]):
+        if r is None or "panic" in r or (("ok" in r) != st.get("ok", True)) or ("ok" in r and st["op"]["k"] in dml and r["ok"].get("n") != st["n"]):
             diverged_at = i
             break
     walsync_at = {}
@@ -167,7 +170,7 @@ def judge_case(hist, out):
         if op >= 0:
             A, B = a_before, b
             post = op in walsync_at and walsync_at[op] <= s["n"]
-            phase = "in_%s%s_%s" % ("txn_" if intxn_before and kind in ("insert", "update", "delete", "truncate") else "", kind, "after_wal_sync" if post else "before_wal_sync")
+            phase = "in_%s%s_%s" % ("txn_" if intxn_before and kind in dml else "", kind, "after_wal_sync" if post else "before_wal_sync")
         else:
             A = B = a_after
             phase = "boundary_in_txn" if intxn_after else "boundary"
@@ -187,7 +190,7 @@ def judge_case(hist, out):
             while j >= 0 and hist[j]["op"]["k"] != "begin":
                 t_extra |= set(hist[j].get("touched", []))
                 j -= 1
-        probs = judge_snapshot(s, A, B, kind, False, t_extra, unit_open=(op >= 0 or intxn_after))
+        probs = judge_snapshot(s, A, B, kind, False, t_extra, unit_open=(op >= 0 or intxn_after), obs_list=obs_list, expected_fn=expected_fn, view_class=view_class, count_views=count_views)
         if not probs:
             stats["consistent"] += 1
         # C02: automatic recovery at open and the streaming path (degraded mode + PRAGMA recover_wal) must agree
@@ -237,7 +240,8 @@ def workloads(chk, walks, depth, with_txn=True):
     return vlib.stratified_sample(hists, feat, walks, rng), {"simulated": len(hists)}
 
 
-VIEW_GROUP = {"scan": "table", "scan_filter": "table", "pk_range": "table", "count": "count", "pk_index": "index", "unique_index": "index",
+VIEW_GROUP = {"wscan": "table", "wcount": "count", "wpk": "index", "weq": "index",
+              "scan": "table", "scan_filter": "table", "pk_range": "table", "count": "count", "pk_index": "index", "unique_index": "index",
               "secondary_index": "index", "open": "open"}
 
 
@@ -247,13 +251,14 @@ def phase_group(p):
         return ph
     kind = p["op_kind"]
     when = "after_wal_sync" if ph.endswith("after_wal_sync") else "before_wal_sync"
-    if kind in ("insert", "update", "delete", "truncate"):
+    if kind in ("insert", "update", "delete", "truncate", "insert_run", "delete_range", "delete_eq", "update_range"):
         return ("in_flight_txn_dml_" if ph.startswith("in_txn_") else "in_flight_dml_") + when
     return "in_flight_%s_%s" % (kind, when)
 
 
-def signatures(verdicts, prop):
+def signatures(verdicts, prop, view_class=None):
     """one signature per (snapshot, view group) for C01, one per snapshot for C02"""
+    VIEW_CLASS = view_class or globals()["VIEW_CLASS"]
     by_snap = {}
     for p in verdicts:
         if p["prop"] != prop:
@@ -317,6 +322,8 @@ def evaluate(chk, prop, walks_quick=30, depth_quick=12, walks_thorough=300, dept
                                "model": p["model"], "problems": [{k: q[k] for k in ("what", "view", "detail")} for q in ps[:4]]})
     proto = protocol_traces(chk, 24 if not thorough else 150) if prop == "C01" else None
     chk.mark("trace_validation")
+    wide = wide_evaluate(chk, prop, 40 if thorough else 5, 14 if thorough else 10, 7 if thorough else 25)
+    chk.mark("wide_crash_run")
     if tot["snapshots"] == 0:
         raise vlib.ToolError("no snapshot was judged")
     if tot["abandoned_after_divergence"] > 0.3 * (tot["snapshots"] + tot["abandoned_after_divergence"]):
@@ -332,7 +339,7 @@ def evaluate(chk, prop, walks_quick=30, depth_quick=12, walks_thorough=300, dept
                "rule": "one evaluation = one (crash point, crash model) snapshot reopened and judged; crash points are distinct hook events / statement boundaries of distinct TLC-generated workloads; every one is non-trivial (recovery runs on a database with a non-empty history)",
                "workloads": len(hists), "workload_steps_by_kind": op_kinds, "hook_events_by_kind": events,
                "snapshots_consistent_with_a_prefix": tot["consistent"], "snapshots_recovered_through_both_paths": tot["both_paths_compared"], "snapshots_abandoned": tot["abandoned_after_divergence"],
-               "signatures": sigs, "exhaustive": False, "crash_models": ["kill", "power"], "protocol_trace_validation": proto,
+               "signatures": sigs, "exhaustive": False, "crash_models": ["kill", "power"], "protocol_trace_validation": proto, "wide_table_workloads": wide,
                "samples": [describe(h) for h in hists[:3]]}
 
 
@@ -406,3 +413,127 @@ def run_cases(hists, stride=1, models=("kill", "power"), jobs=None, both_paths_e
 
 def describe(hist):
     return "; ".join(R.op_sql(h["op"])[0].get("sql", h["op"]["k"]) for h in hist)
+
+
+# ------------------------------------------------------------------------------------------------ wide tables
+# WideTable.tla workloads under crash enumeration: hundreds of rows of ~900 bytes (a transaction of a few hundred
+# inserted rows dirties more than 16 table pages and takes the chunked COMMIT path), page splits in mid crash,
+# snapshots at a stride plus every statement boundary and every event of COMMIT / checkpoint steps.
+import widetable as W
+
+WIDE_PAD = "q" * 900
+WIDE_PAD_BIG = "Q" * 3000
+WIDE_OBS = [("wscan", "SELECT id, a FROM w"), ("wcount", "SELECT COUNT(*) FROM w")] + \
+           [("wpk%d" % i, "SELECT id, a FROM w WHERE id = %d" % i) for i in (1, 2, 64, 65, 128, 129, 200, 256, 300)] + \
+           [("weq%d" % v, "SELECT COUNT(*) FROM w WHERE a = %d" % v) for v in (0, 3)]
+WIDE_VIEW_CLASS = dict([("wscan", "wscan"), ("wcount", "wcount")] + [(n, "wpk") for n, _ in WIDE_OBS if n.startswith("wpk")] + [(n, "weq") for n, _ in WIDE_OBS if n.startswith("weq")])
+
+
+def wide_expected(rows):
+    m = {r[0]: r[1] for r in rows}
+    out = {"wscan": sorted([[i, v] for i, v in m.items()], key=json.dumps), "wcount": [[len(m)]]}
+    for n, _ in WIDE_OBS:
+        if n.startswith("wpk"):
+            i = int(n[3:])
+            out[n] = [[i, m[i]]] if i in m else []
+        elif n.startswith("weq"):
+            v = int(n[3:])
+            out[n] = [[sum(1 for x in m.values() if x == v)]]
+    return out
+
+
+def wide_work_ops(hist):
+    ops = []
+    for st in hist:
+        op = st["op"]
+        k = op["k"]
+        if k == "insert_run":
+            ids = W.run_ids(op)
+            # every third row carries a 3000-byte value (stored out of line in the TOAST table): a transaction of 150 rows
+            # then dirties well over 16 pages and COMMIT takes the chunked path
+            ops.append({"k": "exec", "sql": "INSERT INTO w VALUES " + ", ".join("(%d, %d, '%s')" % (i, i % 10, WIDE_PAD_BIG if i % 3 == 0 else WIDE_PAD) for i in ids)})
+        elif k == "reopen":
+            ops.append({"k": "close_reopen_wal"})
+        elif k in ("begin", "commit", "rollback"):
+            ops.append({"k": "exec", "sql": k.upper()})
+        else:
+            o = W.op_ops(op)
+            assert len(o) == 1
+            ops.append(o[0])
+    return ops
+
+
+def wide_hist_for_judge(hist):
+    """shape the WideTable history like a Relational one for unit_states / judge_case"""
+    out = []
+    for st in hist:
+        op = st["op"]
+        k = op["k"]
+        if k == "insert_run":
+            touched = list(range(op["lo"], op["lo"] + op["len"]))
+        elif k in ("delete_range", "update_range"):
+            touched = list(range(op["lo"], op["hi"] + 1))
+        elif k == "delete_eq":
+            touched = list(range(1, 601))
+        else:
+            touched = []
+        out.append({"op": op, "ok": True, "n": st["n"], "rows": [list(r) for r in st["rows"]], "intxn": st["intxn"], "touched": touched})
+    return out
+
+
+def wide_evaluate(chk, prop, walks, depth, stride):
+    cfg = vlib.scratch() + "/GenWideTxn.cfg"
+    open(cfg, "w").write(open(os.path.join(vlib.SPEC, "Gen_WideTable.cfg")).read().replace("MaxOps = 12", "MaxOps = %d" % depth).replace("WithTxn = FALSE", "WithTxn = TRUE").replace("N = 400", "N = 600"))
+    sim = vlib.run_tlc("MC_WideTable.tla", cfg, workers=1, timeout=1500, simulate="num=%d" % (walks * 4), seed=chk.seed, extra=["-depth", str(depth)])
+    em = vlib.parse_emitted(sim["out"])
+    hists, prev = [], None
+    for e in em:
+        if prev is not None and len(e["hist"]) <= len(prev["hist"]):
+            hists.append(prev["hist"])
+        prev = e
+    if prev is not None:
+        hists.append(prev["hist"])
+    if not hists:
+        raise vlib.ToolError("no WideTable workloads:\n" + sim["out"][-1200:])
+    # prefer walks with a committed transaction that inserts many rows
+    def weight(h):
+        best, cur, intx = 0, 0, False
+        for st in h:
+            k = st["op"]["k"]
+            if k == "begin":
+                intx, cur = True, 0
+            elif k == "commit" and intx:
+                best, intx = max(best, cur), False
+            elif k == "rollback":
+                intx = False
+            elif intx and k == "insert_run":
+                cur += st["op"]["len"]
+        return best
+    hists.sort(key=weight, reverse=True)
+    hists = hists[:walks]
+    cases = []
+    for i, h in enumerate(hists):
+        cases.append({"id": i, "setup": [{"k": "exec", "sql": s} for s in W.SETUP], "after_reopen": WAL_FULL, "work": wide_work_ops(h),
+                      "verify": [q for _, q in WIDE_OBS], "models": ["kill", "power"], "stride": stride, "max_snaps": 600,
+                      "always": ["op_end", "fsync", "msync", "ftruncate", "truncated", "wal.frame_written"]})
+    inp, outp = vlib.scratch() + "/wide_crash_in.ndjson", vlib.scratch() + "/wide_crash_out.ndjson"
+    vlib.write_ndjson(inp, cases)
+    vlib.run_vh(["crash-run", "--in", inp, "--out", outp, "--jobs", vlib.NCPU], timeout=3000)
+    outs = {r["id"]: r for r in vlib.read_ndjson(outp)}
+    tot = {"snapshots": 0, "consistent": 0, "abandoned_after_divergence": 0}
+    sigs = {}
+    biggest = 0
+    for i, h in enumerate(hists):
+        jh = wide_hist_for_judge(h)
+        biggest = max(biggest, weight(h))
+        verdicts, st = judge_case(jh, outs[i], obs_list=WIDE_OBS, expected_fn=wide_expected, view_class=WIDE_VIEW_CLASS,
+                                  dml=("insert_run", "delete_range", "delete_eq", "update_range"), count_views=("wcount", "weq0", "weq3"))
+        for k in tot:
+            tot[k] += st.get(k, 0)
+        for sig, ps in signatures(verdicts, prop, WIDE_VIEW_CLASS):
+            sig = sig
+            sigs[sig] = sigs.get(sig, 0) + 1
+            p = ps[0]
+            chk.classify(sig, {"workload": W.describe(h), "wide": True, "crash_point": p["n"], "event": p["event"], "during_statement": p["op_index"],
+                               "model": p["model"], "problems": [{k: (q[k] if k != "detail" else json.dumps(q[k])[:400]) for k in ("what", "view", "detail")} for q in ps[:3]]})
+    return {"workloads": len(hists), "largest_committed_transaction_rows": biggest, "signatures": sigs, **tot}
